@@ -116,9 +116,9 @@ def audit(prop):
 
 # ---------------------------------------------------------------- running
 
-def _run_lines(cmd, lines, timeout):
+def _run_lines(cmd, lines, timeout, env=None):
     data = '\n'.join(lines) + '\n'
-    p = subprocess.run(cmd, input=data, capture_output=True, text=True, env=ENV, timeout=timeout)
+    p = subprocess.run(cmd, input=data, capture_output=True, text=True, env=env or ENV, timeout=timeout)
     return p
 
 def parse_obs(stdout):
@@ -140,7 +140,7 @@ def chunks(l, n):
     for i in range(0, len(l), n):
         yield l[i:i + n]
 
-def run_harness(case_lines, points, isolate=False, timeout_ms=5000, jobs=8):
+def run_harness(case_lines, points, isolate=False, timeout_ms=5000, jobs=8, extra_env=None):
     """Runs pxharness over the cases, in parallel chunks.  A chunk whose process dies is re-run
     case by case in isolate mode."""
     from concurrent.futures import ThreadPoolExecutor
@@ -148,6 +148,8 @@ def run_harness(case_lines, points, isolate=False, timeout_ms=5000, jobs=8):
     if not case_lines:
         return res
     size = max(1, (len(case_lines) + jobs - 1) // jobs)
+    env = dict(ENV)
+    env.update(extra_env or {})
     def work(idx_chunk):
         idx, chunk = idx_chunk
         wd = os.path.join(WORK, 'tmp', 'h%d_%d' % (os.getpid(), idx))
@@ -155,7 +157,7 @@ def run_harness(case_lines, points, isolate=False, timeout_ms=5000, jobs=8):
         if isolate:
             cmd.append('--isolate')
         try:
-            p = _run_lines(cmd, chunk, timeout=600 + len(chunk) * (timeout_ms / 1000.0 + 1))
+            p = _run_lines(cmd, chunk, timeout=600 + len(chunk) * (timeout_ms / 1000.0 + 1), env=env)
             out = parse_obs(p.stdout)
             rc = p.returncode
         except subprocess.TimeoutExpired:
@@ -164,7 +166,7 @@ def run_harness(case_lines, points, isolate=False, timeout_ms=5000, jobs=8):
         if rc != 0 and not isolate:
             # the process died (abort / stack overflow / OOM): isolate each case
             cmd2 = [HARNESS_BIN, 'run', '--points', ','.join(points), '--work', wd, '--timeout-ms', str(timeout_ms), '--isolate']
-            p = _run_lines(cmd2, chunk, timeout=600 + len(chunk) * (timeout_ms / 1000.0 + 1))
+            p = _run_lines(cmd2, chunk, timeout=600 + len(chunk) * (timeout_ms / 1000.0 + 1), env=env)
             out = parse_obs(p.stdout)
             shutil.rmtree(wd, ignore_errors=True)
         return out
